@@ -135,6 +135,56 @@ func c06Exec(cs fw.Case) *fw.Fail {
 	})
 }
 
+// c06.targets: Unmarshal / UnmarshalFile of a few programs into every target value of the C15 target table, in
+// two orders (state kept between calls, e.g. per-type caches, is thereby built by a different type first).
+type c06TgtCase struct {
+	Prog   int  `json:"prog"`
+	Target int  `json:"target"`
+	Rev    bool `json:"rev"`
+}
+
+func (c *c06TgtCase) Key() string { return fmt.Sprintf("%d|%d|%v", c.Prog, c.Target, c.Rev) }
+
+var c06TgtCaseProgs = []string{
+	"def t { x = 1 }\nbind t -> struct",
+	"def t \"nm\" { x = 1; y = 2.5; foo_bar = \"s\"; def in { x = 2 } }\nbind t -> struct",
+	"def t { x = 1 }\ndef t \"b\" { x = 2; def in \"p\" { x = 3 } }\nbind t:all -> slice",
+	"def t { x = nil; emb = 1; def emb { x = 1 } }\nbind t:first -> slice",
+	"def t { f0 = 1; f1 = 2; f2 = 3; f3 = 4; f4 = 5; f5 = 6; f6 = 7; f7 = 8; def in { f0 = 1; f1 = 2; f2 = 3; f3 = 4; f4 = 5; f5 = 6; f6 = 7; f7 = 8; f8 = 9 } }\nbind t -> struct",
+	"print 1",
+}
+
+var subC06Targets = &fw.Sub{Name: "c06.targets", New: func() fw.Case { return &c06TgtCase{} }, Exec: func(cs fw.Case) *fw.Fail {
+	c := cs.(*c06TgtCase)
+	ts := c15Targets()
+	// the neighbours in the table are bound too, before or after, so that the call under test is not always the first
+	idx := []int{c.Target, (c.Target + 1) % len(ts), (c.Target + len(ts) - 1) % len(ts)}
+	if c.Rev {
+		idx[0], idx[2] = idx[2], idx[0]
+	}
+	src := c06TgtCaseProgs[c.Prog]
+	for _, i := range idx {
+		for _, file := range []bool{false, true} {
+			var pan any
+			func() {
+				defer func() { pan = recover() }()
+				var out, log bytes.Buffer
+				if file {
+					bcl.UnmarshalFile(impl.NewScriptFile(src, impl.Chunks(len(src)/2)), ts[i].mk(), bcl.OptOutput(&out), bcl.OptLogger(&log))
+				} else {
+					bcl.Unmarshal([]byte(src), ts[i].mk(), bcl.OptOutput(&out), bcl.OptLogger(&log))
+				}
+			}()
+			if pan != nil {
+				return fw.Failf("Unmarshal returns a result or an error for every target", "target %s (file=%v): panic: %v", ts[i].name, file, pan)
+			}
+		}
+	}
+	fw.TallyOutcome("targets-no-panic")
+	fw.TallyNontrivial()
+	return nil
+}}
+
 var subC06 = &fw.Sub{Name: "c06.run", New: func() fw.Case { return &c06Case{} }, Exec: c06Exec}
 
 // one representative per lexer character class
@@ -184,9 +234,9 @@ func init() {
 		Level: "exploration",
 		Rule: "bounded-exhaustive: (a) every byte string of length <=L over one representative per lexer character class (38 symbols), bare and inside `print _` and `def a{_}`; " +
 			"(b) every token string of length <=T over a 47-symbol vocabulary that includes the malformed literals; (c) every single-token and single-byte deviation (delete/insert/replace/transpose) of every core-corpus program; " +
-			"(d) scaled programs just below/at/above each implementation limit. Each through Parse+Interpret+Unmarshal under recover, (c),(d) and the short part of (a),(b) also through ParseFile/InterpretFile/UnmarshalFile in a worker process whose death is attributed to the input in flight. " +
+			"(d) scaled programs just below/at/above each implementation limit; (e) 6 programs unmarshalled (bytes and file variant) into every one of the ~1100 target values of the C15 table, each preceded / followed by its neighbours in the table. Each through Parse+Interpret+Unmarshal under recover, (c),(d) and the short part of (a),(b) also through ParseFile/InterpretFile/UnmarshalFile in a worker process whose death is attributed to the input in flight. " +
 			"Invariant oracle: returns, no panic, process alive, result or error. distinct_nontrivial = distinct inputs executed.",
-		Subs:           []*fw.Sub{subC06},
+		Subs:           []*fw.Sub{subC06, subC06Targets},
 		BudgetQuick:    170,
 		BudgetThorough: 1800,
 		Assumptions: []string{"inputs whose legitimate result needs more than 2^20 bytes of repeated string are excluded (decided by the reference model), as the property states",
@@ -197,6 +247,13 @@ func init() {
 					c.Nontrivial()
 				}
 				return !c.Expired()
+			}
+			// (e) Unmarshal into every target of the C15 table
+			for p := range c06TgtCaseProgs {
+				for t := range c15Targets() {
+					c.Do(subC06Targets, &c06TgtCase{Prog: p, Target: t})
+					c.Do(subC06Targets, &c06TgtCase{Prog: p, Target: t, Rev: true})
+				}
 			}
 			// (d) scaled families first (they hold the known limits)
 			for _, s := range gen.ScaledFamilies(true) {
